@@ -55,7 +55,12 @@ class Tap:
 
 
 def gen_signal(rng, n):
-    t = int(rng.integers(0, 6))
+    t = int(rng.integers(0, 7))
+    if t == 6:
+        # integer counters whose squares do not fit the integer dtype (the power is a floating-point quantity)
+        dt, top = [(np.int16, 3 * 10 ** 4), (np.int32, 2 * 10 ** 9), (np.int64, 2 * 10 ** 12), (np.uint8, 255)][int(rng.integers(0, 4))]
+        a = rng.integers(top // 4, top, n).astype(dt)
+        return a, "int_large:" + np.dtype(dt).name
     if t == 0:
         a = rng.normal(0, 1, n) * float(rng.choice([1, 10, 0.01]))
     elif t == 1:
@@ -79,7 +84,9 @@ def run_tapped_case(ctx, kind_, idx):
     n = int(rng.integers(1, 201))
     a, acls = gen_signal(rng, n)
     t = int(rng.integers(0, 6))
-    via_weaver = bool(rng.integers(0, 3) == 0) and n >= 2
+    # narrow / unsigned integer containers are only handed to the function itself: inside a Weaver every later shift or
+    # scale would run into NumPy's own integer semantics (OverflowError for -2 on uint8), which no property speaks about
+    via_weaver = bool(rng.integers(0, 3) == 0) and n >= 2 and not acls.startswith("int_large")
     kw = {}
     if t == 5:          # nothing given: the documented default std = 1.0 applies
         snr = None
@@ -105,7 +112,7 @@ def run_tapped_case(ctx, kind_, idx):
     if n <= 8:
         info["a"] = a
     npseed = int(rng.integers(0, 2 ** 31 - 1))
-    ain, _k = gen.as_container(rng, a, allow=("array", "list", "readonly"))
+    ain, _k = gen.as_container(rng, a, allow=("array", "list", "readonly", "series", "tuple"))
     if via_weaver:
         ain = np.array(a)
     a_before = np.array(a).copy()
